@@ -86,7 +86,13 @@ def prepare(rel, derive=None):
     def w_layout(kind):
         def mk(orig):
             def g(self, line, *a, **k):
-                log['layout'].append((log['table'], kind, getattr(line, 'no', None)))
+                # which table: during set-up the table being set up; later (update_row_format_TOUGH2 while
+                # reading) the table whose column list is passed in
+                tn = log['table']
+                cols_ = a[-1] if a else None
+                for t_, tab_ in getattr(self, '_table', {}).items():
+                    if tab_.column_name is cols_: tn = t_
+                log['layout'].append((tn, kind, getattr(line, 'no', None)))
                 return orig(self, line, *a, **k)
             return g
         return mk
@@ -147,6 +153,16 @@ def prepare(rel, derive=None):
                 for no, nm, toks in trs: byname[nm] = no          # a row printed twice (TOUGH2_MP): the last print is the one kept
                 for r in ti['rows']:
                     oracle[(tn, r, ik)] = byname.get(ti['names'][r]) if ti['unique'][r] else None
+        # rows longer than every row of their table at the first result set make the reader re-infer the column
+        # positions when first met (update_row_format_TOUGH2), whichever of them comes first in the navigation
+        # order: all of them count as layout lines (digits symbolic, signs as printed)
+        if fam != 'AUTOUGH2':
+            b0 = (bounds[fullk[0]], bounds[fullk[0] + 1])
+            for tn, ti in tables.items():
+                first = c6.table_rows(raw, b0[0], b0[1], ti['sig'], ti['int_first'])
+                longest = max([len(raw[no].rstrip()) for no, _, _ in first] or [0])
+                for (t2, r, ik), no in oracle.items():
+                    if t2 == tn and no is not None and len(raw[no].rstrip()) > longest: layout.add(no)
         # cross-check with the lines the reader consumed while stepping (full result sets)
         unread = []
         for j, ik in enumerate(fullk):
@@ -164,6 +180,12 @@ def prepare(rel, derive=None):
                     elif got != oracle[(tn, r, ik)]:
                         raise ValueError('%s: row %d of table %s at result set %d: text scan finds line %r, stepping reads line %r' % (
                             rel, r, tn, ik, oracle[(tn, r, ik)], got))
+        # lines parsed for the layout while stepping (a later, longer row extends the column positions):
+        # the last one parsed for a table gives the reference column ends
+        for tn, kind, no in log['layout']:
+            if no is not None: layout.add(no)
+            if kind == 'parse' and tn in tables and no is not None:
+                tables[tn]['ref_ends'] = [t['end'] for t in cc.tokenize_row(raw[no], tables[tn]['int_first'])]
     finally:
         for (cls, name), v in saved.items(): setattr(cls, name, v)
     P = dict(rel=rel, path=path, raw=raw, fam=fam, sets=sets, bounds=bounds, fullk=fullk, tables=tables, layout=layout,
